@@ -231,6 +231,11 @@ wrapint wrapint::sdiv(wrapint x) const {
   sanity_check_bitwidths(x);
   if (x.is_zero()) {
     CRAB_ERROR("wrapint: signed division by zero ", __LINE__);
+  } else if (*this == get_signed_min(_width) && x == get_unsigned_max(_width)) {
+    // The only overflow case: -2^(w-1) / -1 = 2^(w-1) wraps around to
+    // -2^(w-1). If w=64 the quotient does not fit in an int64_t so it
+    // cannot be passed to the constructor.
+    return *this;
   } else {
     ikos::z_number dividend = get_signed_bignum();
     ikos::z_number divisor = x.get_signed_bignum();
